@@ -408,7 +408,7 @@ def build_world(sched, cpu_count=2, psutil=True, environ=None):
             s.trace.append(("signal-ignored", p.label, int(signum)))
             return          # the target ignores / handles this signal (SIGKILL cannot be)
         if p.alive:
-            s.trace.append(("killed-by", s.cur.full, p.label))
+            s.trace.append(("killed-by", s.cur.full, p.label, K.stack_sig_proc(s, p)))
             s.kill_proc(p, s.cur, -int(signum))
             if s.cur.killed:
                 raise K.SimKilled()
@@ -797,7 +797,7 @@ def _make_popen(w):
                 s = chk()
                 s.point(label="kill")
                 if self.proc.alive:
-                    s.trace.append(("killed-by", s.cur.full, self.proc.label))
+                    s.trace.append(("killed-by", s.cur.full, self.proc.label, K.stack_sig_proc(s, self.proc)))
                     s.kill_proc(self.proc, s.cur, code)
 
         def terminate(self):
